@@ -87,6 +87,14 @@ class Builder(object):
                 return self.prefix_stmtexprs(s.e, n)
             return n
         if k == 'return':
+            se = strip_bool(s.e) if s.e is not None else None
+            if se is not None and se.k == 'bin' and se.op in ('&&', '||'):
+                # return a && b;  ==  if(a && b) return 1; else return 0;   (exposes the atoms as edges)
+                one = g.new('ret', e=E('int', val=1, t='int', file=s.file, line=s.line), file=s.file, line=s.line, stmt=s)
+                zero = g.new('ret', e=E('int', val=0, t='int', file=s.file, line=s.line), file=s.file, line=s.line, stmt=s)
+                g.edge(one, g.exit)
+                g.edge(zero, g.exit)
+                return self.cond(s.e, one, zero, s)
             n = g.new('ret', e=s.e, file=s.file, line=s.line, stmt=s)
             g.edge(n, g.exit)
             if s.e is not None:
